@@ -107,9 +107,24 @@ theorem canon_examples :
   simp only [ex1, ex2, ex3, ex4, ex5, ex6, ex7, ex8, ex9, i, v, Canon, CanonL, CanonM, CanonAL, CanonA, SortedKeys, keysOf]
   decide
 
-/-- … and the theorem applies to them -/
-example : ∃ e', parseExprEntry pf0 (withPos 0 (toks ff0 ex9 ++ [tEOF])) = .ok e' ∧ erase e' = erase ex9 :=
-  print_parse_roundtrip_tokens ff0 pf0 ex9 canon_examples.2.2.2.2.2.2.2.2 _ (withPos_carries 0 _)
+/-- … and the theorem applies to them (any positions: here consecutive from 0 resp. 100) -/
+example : ∃ e', parseExprEntry pf0 (withPos 0 (toks ff0 ex1 ++ [tEOF])) = .ok e' ∧ erase e' = erase ex1 :=
+  print_parse_roundtrip_tokens ff0 pf0 ex1 canon_examples.1 _ (withPos_carries 0 _)
+example : ∃ e', parseExprEntry pf0 (withPos 0 (toks ff0 ex2 ++ [tEOF])) = .ok e' ∧ erase e' = erase ex2 :=
+  print_parse_roundtrip_tokens ff0 pf0 ex2 canon_examples.2.1 _ (withPos_carries 0 _)
+example : ∃ e', parseExprEntry pf0 (withPos 0 (toks ff0 ex3 ++ [tEOF])) = .ok e' ∧ erase e' = erase ex3 :=
+  print_parse_roundtrip_tokens ff0 pf0 ex3 canon_examples.2.2.1 _ (withPos_carries 0 _)
+example : ∃ e', parseExprEntry pf0 (withPos 0 (toks ff0 ex4 ++ [tEOF])) = .ok e' ∧ erase e' = erase ex4 :=
+  print_parse_roundtrip_tokens ff0 pf0 ex4 canon_examples.2.2.2.1 _ (withPos_carries 0 _)
+example : ∃ e', parseExprEntry pf0 (withPos 0 (toks ff0 ex5 ++ [tEOF])) = .ok e' ∧ erase e' = erase ex5 :=
+  print_parse_roundtrip_tokens ff0 pf0 ex5 canon_examples.2.2.2.2.1 _ (withPos_carries 0 _)
+example : ∃ e', parseExprEntry pf0 (withPos 0 (toks ff0 ex6 ++ [tEOF])) = .ok e' ∧ erase e' = erase ex6 :=
+  print_parse_roundtrip_tokens ff0 pf0 ex6 canon_examples.2.2.2.2.2.1 _ (withPos_carries 0 _)
+example : ∃ e', parseExprEntry pf0 (withPos 100 (toks ff0 ex9 ++ [tEOF])) = .ok e' ∧ erase e' = erase ex9 :=
+  print_parse_roundtrip_tokens ff0 pf0 ex9 canon_examples.2.2.2.2.2.2.2.2 _ (withPos_carries 100 _)
+
+/-- the printed tokens of `(1 + 2) * 3` -/
+example : toks ff0 ex1 = [tLP, ⟨.tInteger, [49]⟩, tOp .add, ⟨.tInteger, [50]⟩, tRP, tOp .mul, ⟨.tInteger, [51]⟩] := by decide
 
 /-- the round trip, evaluated: parse the positioned printed tokens, erase, print again -/
 def roundTrip (e : Expr) : Option Bytes :=
@@ -135,6 +150,10 @@ theorem invalid_utf8_key_not_requotable :
     Quote.unquoteString [39, 255, 39] = some [255] ∧
     quoteString [255] = [39, 239, 191, 189, 39] ∧
     Quote.unquoteString (quoteString [255]) = some [239, 191, 189] := by decide
+
+/-- keys with every escape and multi-byte runes re-quote: `a\n\r\t\b\f'\é€😀` -/
+example : Quote.unquoteString (quoteString [97, 10, 13, 9, 8, 12, 39, 92, 195, 169, 226, 130, 172, 240, 159, 152, 128]) =
+    some [97, 10, 13, 9, 8, 12, 39, 92, 195, 169, 226, 130, 172, 240, 159, 152, 128] := by decide
 
 /-- redundant parentheses: `((1)) + (2 * (3))` renders `1 + 2 * 3` and parses to it -/
 def ex10 : Expr := .bin .add 0 (i 1) (.bin .mul 0 (i 2) (i 3))
